@@ -1,17 +1,29 @@
 /-
 Boundary safety of two token signatures that are printed with nothing between them (`directSafe`), by the rules of
 longest-match lexing (ES5 7: identifier / number / punctuator / regular-expression-flag extension, comment starts),
-and the table-level check over the follow relations of the three rule sets.
+and the table-level check over the follow relations of the three rule sets (`directOK`, evaluated on bit sets;
+`directOK_spec` says what it means).
 -/
 import CalmVerif.Proofs.RoundTripCert
 namespace CalmVerif.TokenAdj
 open CalmVerif CalmVerif.Unparse
 
+def rangeTo : Nat → List Nat
+  | 0 => []
+  | n + 1 => n :: rangeTo n
+
+/-- the exact text of a `lit` signature ("" for the classes) -/
+def tcText : TC → String
+  | .lit i => litText i
+  | _ => ""
+
+def headIs (p : Char → Bool) : List Char → Bool
+  | c :: _ => p c
+  | [] => false
+
 /-- the first character of the token is an identifier-part character (letter, digit, `$`, `_`, …) -/
 def startsId : TC → Bool
-  | .lit s => match s.toList with
-    | c :: _ => isIdPart c
-    | [] => false
+  | .lit i => headIs isIdAny (litText i).toList
   | .word _ _ => true
   | .decInt => true
   | .numDot => true
@@ -20,30 +32,42 @@ def startsId : TC → Bool
 
 /-- the first character of the token is a decimal digit -/
 def startsDigit : TC → Bool
-  | .lit s => match s.toList with
-    | c :: _ => isDigit c
-    | [] => false
+  | .lit i => headIs isDigit (litText i).toList
   | .decInt => true
   | .numDot => true
   | .num false => true
   | _ => false
 
 /-- what a punctuator could be extended with: the first characters of the next token -/
-def firstText : TC → String
-  | .lit q => q
-  | .regex _ => "/"
-  | .lineComment => "//"
-  | .blockComment => "/*"
-  | .num true => "."
-  | .commas => ","
-  | _ => ""
+def firstText : TC → List Char
+  | .lit i => (litText i).toList
+  | .regex _ => ['/']
+  | .lineComment => ['/', '/']
+  | .blockComment => ['/', '*']
+  | .num true => ['.']
+  | .commas => [',']
+  | _ => []
+
+/-- the punctuators and comment openers that properly extend `p` -/
+def extsOf (p : List Char) : List String → List (List Char)
+  | [] => []
+  | r :: rs =>
+    if decide (p.length < r.length) && p.isPrefixOf r.toList then r.toList :: extsOf p rs else extsOf p rs
+
+def anyPrefixOf (pq : List Char) : List (List Char) → Bool
+  | [] => false
+  | r :: rs => r.isPrefixOf pq || anyPrefixOf pq rs
 
 /-- `p` directly followed by text starting with `q` reads as a longer punctuator or as a comment start -/
-def extendsPunct (p q : String) : Bool :=
-  (punctuators ++ ["//", "/*"]).any fun r =>
-    decide (p.length < r.length) && p.toList.isPrefixOf r.toList && r.toList.isPrefixOf (p.toList ++ q.toList)
+def extendsPunct (p q : List Char) : Bool := anyPrefixOf (p ++ q) (extsOf p (punctuators ++ ["//", "/*"]))
 
-def endsWithSpace (s : String) : Bool := s.toList.getLast? == some ' '
+/-- D: the ASCII fast path of the identifier tables agrees with Gen.LexData below 128 (and `$`, letters, digits, `_`
+are all there is), so `isIdStart` / `isIdPart` are the lexer's character classes -/
+theorem ascii_tables_agree :
+    ((rangeTo 128).all fun n => inRanges n idStartAscii == inRanges n Gen.LexData.idStart &&
+      inRanges n idPartAscii == inRanges n Gen.LexData.idPart) = true := by decide +kernel
+
+def endsWithSpace (s : List Char) : Bool := s.getLast? == some ' '
 
 /-- token `a` directly followed by token `b` (nothing printed between them) still lexes as `a` then `b`
 (given the goal symbol of `b` at a `/`) -/
@@ -57,30 +81,110 @@ def directSafe (a b : TC) : Bool :=
   | .commas => true
   | .word _ _ => !startsId b
   | .regex _ => !startsId b
-  | .decInt => !startsId b && !(firstText b).toList.isPrefixOf ['.'] || (firstText b == "") && !startsId b
+  | .decInt => !startsId b && !headIs (· == '.') (firstText b)
   | .numDot => !startsId b
   | .num _ => !startsId b
-  | .lit s =>
+  | .lit i =>
+    let s := (litText i).toList
     if endsWithSpace s then true
-    else if startsId (.lit s) then !startsId b
-    else !extendsPunct s (firstText b) && !(s == "." && startsDigit b)
-
-def tokPairs (F : List (Sym × Sym)) : List (TC × TC) :=
-  F.filterMap fun p => match p with
-    | (.t a, .t b) => some (a, b)
-    | _ => none
+    else if headIs isIdAny s then !startsId b
+    else !extendsPunct s (firstText b) && !(s == ['.'] && startsDigit b)
 
 /-- KF-01: a decimal integer literal directly before the `.` of a member access -/
-def kf01Pair (a b : TC) : Bool := a == .decInt && b == .lit "."
+def kf01Pair (a b : TC) : Bool := a == .decInt && b == mkLit "."
 
 /-- artefacts of the abstraction (pairs it cannot exclude although they never occur):
 `function` directly before its name (the `RequiredSpace` sits in an `Optional` on the same attribute as the name),
 and anything after a line comment in rule sets that have no comment handlers (comments are then never printed;
 where they are printed, the definitions put a `Newline` marker after them) -/
 def artefactPair (a b : TC) : Bool :=
-  (a == .lit "function" && (match b with | .word _ _ => true | _ => false)) || a == .lineComment
+  (a == mkLit "function" && (match b with | .word _ _ => true | _ => false)) || a == .lineComment
 
-def directOK (F : List (Sym × Sym)) : Bool :=
-  (tokPairs F).all fun p => directSafe p.1 p.2 || kf01Pair p.1 p.2 || artefactPair p.1 p.2
+def okPair (a b : TC) : Bool := directSafe a b || kf01Pair a b || artefactPair a b
+
+/-! ### the check on bit sets -/
+
+def rangeFrom : Nat → Nat → List Nat
+  | _, 0 => []
+  | i, n + 1 => i :: rangeFrom (i + 1) n
+
+/-- the codes of all token signatures (`tcCode`): the classes 1 … 22 and the table spellings 32 … -/
+def tokCodes : List Nat := rangeFrom 1 22 ++ rangeFrom 32 litTable.length
+
+/-- bit set (over symbols `2·b`) of the codes `b` that are NOT allowed directly after code `a` -/
+def unsafeRow (a : TC) : List Nat → Nat
+  | [] => 0
+  | b :: bs => (if okPair a (tcOfCode b) then 0 else 1 <<< (2 * b)) ||| unsafeRow a bs
+
+/-- bit set of the symbols that may directly follow symbol `x` -/
+def succMask (x : Sym) : List Rect → Nat
+  | [] => 0
+  | r :: rs => (if r.1.has x then r.2.bits else 0) ||| succMask x rs
+
+def directOKFrom (F : List Rect) : List Nat → Bool
+  | [] => true
+  | a :: as => (succMask (2 * a) F &&& unsafeRow (tcOfCode a) tokCodes == 0) && directOKFrom F as
+
+/-- every two token signatures that are adjacent in `F` are boundary-safe, a known finding or an artefact -/
+def directOK (F : List Rect) : Bool := directOKFrom F tokCodes
+
+/-! ### what the bit-set check means -/
+
+theorem succMask_spec (x y : Sym) : ∀ (F : List Rect), InF F x y → (succMask x F).testBit y = true := by
+  intro F
+  induction F with
+  | nil => intro ⟨r, hr, _⟩; simp at hr
+  | cons r rs ih =>
+    intro ⟨q, hq, hx, hy⟩
+    simp only [succMask, Nat.testBit_or, Bool.or_eq_true]
+    rcases List.mem_cons.mp hq with rfl | hq
+    · left
+      have hx' : q.1.has x = true := hx
+      rw [hx']
+      exact hy
+    · exact Or.inr (ih ⟨q, hq, hx, hy⟩)
+
+theorem unsafeRow_spec (a : TC) (b : Nat) : ∀ (l : List Nat), b ∈ l → okPair a (tcOfCode b) = false →
+    (unsafeRow a l).testBit (2 * b) = true := by
+  intro l
+  induction l with
+  | nil => intro h; simp at h
+  | cons c cs ih =>
+    intro hb hok
+    simp only [unsafeRow, Nat.testBit_or, Bool.or_eq_true]
+    rcases List.mem_cons.mp hb with rfl | hb
+    · left
+      rw [hok]
+      simp [Nat.one_shiftLeft, Nat.testBit_two_pow]
+    · exact Or.inr (ih hb hok)
+
+theorem directOKFrom_spec (F : List Rect) : ∀ (l : List Nat), directOKFrom F l = true → ∀ a ∈ l,
+    succMask (2 * a) F &&& unsafeRow (tcOfCode a) tokCodes = 0 := by
+  intro l
+  induction l with
+  | nil => intro _ a ha; simp at ha
+  | cons c cs ih =>
+    intro h a ha
+    simp only [directOKFrom, Bool.and_eq_true, beq_iff_eq] at h
+    rcases List.mem_cons.mp ha with rfl | ha
+    · exact h.1
+    · exact ih h.2 a ha
+
+/-- `directOK F`: for all token codes `a`, `b` (`tokCodes`: every signature class and every table spelling), if the
+symbol of `a` may be directly followed by the symbol of `b` in `F`, then the pair is boundary-safe (`directSafe`), the
+known finding KF-01 (`kf01Pair`) or an artefact of the abstraction (`artefactPair`) -/
+theorem directOK_spec (F : List Rect) (h : directOK F = true) (a b : Nat) (ha : a ∈ tokCodes) (hb : b ∈ tokCodes)
+    (hf : InF F (2 * a) (2 * b)) : okPair (tcOfCode a) (tcOfCode b) = true := by
+  cases hok : okPair (tcOfCode a) (tcOfCode b) with
+  | true => rfl
+  | false =>
+    exfalso
+    have h0 := directOKFrom_spec F tokCodes h a ha
+    have h1 := succMask_spec (2 * a) (2 * b) F hf
+    have h2 := unsafeRow_spec (tcOfCode a) b tokCodes hb hok
+    have : (succMask (2 * a) F &&& unsafeRow (tcOfCode a) tokCodes).testBit (2 * b) = true := by
+      rw [Nat.testBit_and, h1, h2]; rfl
+    rw [h0] at this
+    simp at this
 
 end CalmVerif.TokenAdj
